@@ -166,7 +166,13 @@ func digestCFF(g *cff.Glyph) string {
 func gid(x int) glyph.ID { return glyph.ID(uint16(x)) }
 
 // Build constructs the concrete font of an abstract font.
-func Build(F *Font) (*sfnt.Font, *Ident) {
+//
+// salt (VERIF_SEED mixed with a hash of the abstract font) selects the *concrete realisation*
+// of what the model leaves open: the record form of every composite component (byte or word
+// arguments, no / uniform / x-y / 2x2 scale, USE_MY_METRICS, ROUND_XY_TO_GRID), whether a
+// composite carries no, an empty or a non-empty instruction block (WE_HAVE_INSTRUCTIONS), and
+// the instruction bytes of simple glyphs (odd and even glyph lengths).
+func Build(F *Font, salt uint32) (*sfnt.Font, *Ident) {
 	f := &sfnt.Font{
 		FamilyName:         "Verif Subset " + F.Kind,
 		Width:              os2.WidthNormal,
@@ -200,20 +206,11 @@ func Build(F *Font) (*sfnt.Font, *Ident) {
 			var gl *glyf.Glyph
 			switch {
 			case len(F.Comp[g]) > 0:
-				cg := glyf.CompositeGlyph{}
-				for k, c := range F.Comp[g] {
-					flags := glyf.FlagArgsAreXYValues
-					if k+1 < len(F.Comp[g]) {
-						flags |= glyf.FlagMoreComponents
-					}
-					cg.Components = append(cg.Components, glyf.GlyphComponent{
-						Flags: flags, GlyphIndex: gid(c), Data: []byte{byte(10 + g), byte(20 + k)}})
-				}
-				gl = &glyf.Glyph{Rect16: funit.Rect16{LLx: 0, LLy: 0, URx: funit.Int16(400 + g), URy: 500}, Data: cg}
+				gl = compositeTT(F.Comp[g], g, salt)
 			case F.Out[g] == -3:
 				gl = nil
 			default:
-				gl = simpleTT(g)
+				gl = simpleTT(g, salt)
 			}
 			out.Glyphs = append(out.Glyphs, gl)
 			out.Widths = append(out.Widths, funit.Int16(F.W[g]))
@@ -278,21 +275,24 @@ func Build(F *Font) (*sfnt.Font, *Ident) {
 	}
 
 	// character map
+	// The subtables of the original font are encoded here, one segment / group per character,
+	// not by the library's encoders: the original must be what the model says even when
+	// the code under test encodes wrongly (the subset is encoded by the library).
 	f4 := func(keep func(code int) bool) []byte {
-		m := cmap.Format4{}
+		var ent [][2]int
 		for _, e := range F.Cmap {
 			if keep(e[0]) {
-				m[uint16(e[0])] = gid(e[1])
+				ent = append(ent, [2]int{e[0], e[1]})
 			}
 		}
-		return m.Encode(0)
+		return encodeFormat4(ent)
 	}
 	f12 := func() []byte {
-		m := cmap.Format12{}
+		var ent [][2]int
 		for _, e := range F.Cmap {
-			m[uint32(e[0])] = gid(e[1])
+			ent = append(ent, [2]int{e[0], e[1]})
 		}
-		return m.Encode(0)
+		return encodeFormat12(ent)
 	}
 	all := func(int) bool { return true }
 	switch F.CmapCfg {
@@ -361,16 +361,129 @@ func Build(F *Font) (*sfnt.Font, *Ident) {
 			ScriptList: gtab.ScriptListInfo{
 				language.MustParse("und-Zyyy"): {Required: 0xFFFF, Optional: []gtab.FeatureIndex{0}}},
 			FeatureList: gtab.FeatureListInfo{{Tag: "kern", Lookups: []gtab.LookupIndex{0}}},
-			LookupList: gtab.LookupList{{Meta: &gtab.LookupMetaInfo{LookupType: 2}, Subtables: []gtab.Subtable{st}}},
+			LookupList:  gtab.LookupList{{Meta: &gtab.LookupMetaInfo{LookupType: 2}, Subtables: []gtab.Subtable{st}}},
 		}
 	}
 	return f, id
 }
 
-func simpleTT(g int) *glyf.Glyph {
-	// one triangle, unique per glyph; most compact encoding done by hand
+func mix(a, b uint32) uint32 {
+	x := a*2654435761 + b*40503 + 0x9E3779B9
+	x ^= x >> 15
+	x *= 2246822519
+	x ^= x >> 13
+	return x
+}
+
+// compositeTT realises a composite glyph.  The bytes of every component record contain g, so
+// the records (without the glyph indices) identify the glyph.
+func compositeTT(comps []int, g int, salt uint32) *glyf.Glyph {
+	cg := glyf.CompositeGlyph{}
+	h := mix(salt, uint32(g))
+	for k, c := range comps {
+		hk := mix(h, uint32(k+1))
+		flags := glyf.FlagArgsAreXYValues
+		var data []byte
+		if hk&1 == 0 {
+			data = []byte{byte(10 + g), byte(20 + k)}
+		} else {
+			flags |= glyf.FlagArg1And2AreWords
+			data = []byte{0, byte(10 + g), 0xFF, byte(200 - k)} // dx = 10+g, dy < 0
+		}
+		switch (hk >> 1) % 4 {
+		case 1:
+			flags |= glyf.FlagWeHaveAScale
+			data = append(data, 0x40, byte(g))
+		case 2:
+			flags |= glyf.FlagWeHaveAnXAndYScale
+			data = append(data, 0x40, 0x00, 0x20, byte(g))
+		case 3:
+			flags |= glyf.FlagWeHaveATwoByTwo
+			data = append(data, 0x40, 0x00, 0x00, byte(g), 0x00, 0x00, 0x40, 0x00)
+		}
+		if (hk>>3)&1 == 1 {
+			flags |= glyf.FlagUseMyMetrics
+		}
+		if (hk>>4)&1 == 1 {
+			flags |= glyf.FlagRoundXYToGrid
+		}
+		if k+1 < len(comps) {
+			flags |= glyf.FlagMoreComponents
+		}
+		cg.Components = append(cg.Components, glyf.GlyphComponent{Flags: flags, GlyphIndex: gid(c), Data: data})
+	}
+	// instruction block: absent, present and empty (count 0), present with 1..3 bytes
+	switch (h >> 8) % 3 {
+	case 1:
+		cg.Instructions = []byte{}
+	case 2:
+		cg.Instructions = []byte{0x4B, 0x4B, 0x4B}[:1+int(h>>12)%3]
+	}
+	if cg.Instructions != nil {
+		cg.Components[len(cg.Components)-1].Flags |= glyf.FlagWeHaveInstructions
+	}
+	return &glyf.Glyph{Rect16: funit.Rect16{LLx: 0, LLy: 0, URx: funit.Int16(400 + g), URy: 500}, Data: cg}
+}
+
+func be16(b []byte, x int) []byte { return append(b, byte(x>>8), byte(x)) }
+func be32(b []byte, x int) []byte { return append(b, byte(x>>24), byte(x>>16), byte(x>>8), byte(x)) }
+
+// encodeFormat4 writes a format 4 cmap subtable with one segment per character (codes < 0xFFFF).
+func encodeFormat4(ent [][2]int) []byte {
+	sort.Slice(ent, func(i, j int) bool { return ent[i][0] < ent[j][0] })
+	if len(ent) == 0 || ent[len(ent)-1][0] != 0xFFFF {
+		ent = append(ent, [2]int{0xFFFF, 0}) // final segment, maps 0xFFFF to glyph 0 (delta 1)
+	}
+	n := len(ent)
+	sel := 0
+	for 1<<(sel+1) <= n {
+		sel++
+	}
+	b := be16(nil, 4)
+	b = be16(b, 16+8*n)
+	b = be16(b, 0)
+	b = be16(b, 2*n)
+	b = be16(b, 2<<sel)
+	b = be16(b, sel)
+	b = be16(b, 2*n-(2<<sel))
+	for _, e := range ent {
+		b = be16(b, e[0])
+	}
+	b = be16(b, 0)
+	for _, e := range ent {
+		b = be16(b, e[0])
+	}
+	for _, e := range ent {
+		b = be16(b, (e[1]-e[0])&0xFFFF)
+	}
+	for range ent {
+		b = be16(b, 0)
+	}
+	return b
+}
+
+// encodeFormat12 writes a format 12 cmap subtable with one group per character.
+func encodeFormat12(ent [][2]int) []byte {
+	sort.Slice(ent, func(i, j int) bool { return ent[i][0] < ent[j][0] })
+	b := be16(nil, 12)
+	b = be16(b, 0)
+	b = be32(b, 16+12*len(ent))
+	b = be32(b, 0)
+	b = be32(b, len(ent))
+	for _, e := range ent {
+		b = be32(b, e[0])
+		b = be32(b, e[0])
+		b = be32(b, e[1])
+	}
+	return b
+}
+
+func simpleTT(g int, salt uint32) *glyf.Glyph {
+	// one triangle, unique per glyph, 0..3 instruction bytes (odd and even glyph lengths)
 	pts := [][2]int{{10 * g, 0}, {100 + g, 50}, {30, 200 + g}}
-	body := []byte{0, 2, 0, 0} // endPts = [2], no instructions
+	ni := int(mix(salt, uint32(1000+g)) % 4)
+	body := []byte{0, 2, 0, byte(ni)} // endPts = [2], instruction count
+	body = append(body, []byte{0x4B, 0x4B, 0x4B}[:ni]...)
 	var flags, xs, ys []byte
 	px, py := 0, 0
 	for _, p := range pts {
